@@ -70,7 +70,7 @@ def grid_case(ctx, h, w, acyclic, prim, be, mode):
                     forms=("var",) if n > 6 else ("var", "neg", "expr"), desc=desc, rng=ctx.rng)
     else:
         oset = {p for p in D.all_patterns(n) if ora(p)}
-        D.accepted_set(ctx, "avc", n, post, oset, backend=(be if (prim and not acyclic) else None), desc=desc, cap=70000)
+        D.accepted_set(ctx, "avc", n, post, oset, backend=(be if (prim and not acyclic) else None), desc=desc, cap=6000)
     ctx.count("avc.grid")
 
 
@@ -123,12 +123,13 @@ def run(ctx):
                 if k % 2 == 0 or thorough:
                     grid_case(ctx, h, w, acyclic, False, be, "accepted")
     if thorough:
-        big = [(3, 5), (5, 3), (4, 4), (2, 8), (1, 14), (14, 1)]
-        for k, (h, w) in enumerate(big):
-            for acyclic in (False, True):
-                if ctx.mine(k * 2 + int(acyclic)):
-                    with ctx.guard(3000):
-                        grid_case(ctx, h, w, acyclic, False, be, "accepted")
+        # accepted-set enumeration costs ~K^2/2 clause conversions for K accepted patterns: only shapes with K <= ~2000
+        big = [((2, 7), False), ((2, 7), True), ((7, 2), False), ((7, 2), True), ((1, 14), False), ((14, 1), True),
+               ((3, 5), True), ((5, 3), True), ((2, 8), True), ((8, 2), True)]
+        for k, ((h, w), acyclic) in enumerate(big):
+            if ctx.mine(k):
+                with ctx.guard(3000):
+                    grid_case(ctx, h, w, acyclic, False, be, "accepted")
     # larger grids, sampled patterns (BFS-grown connected sets, their one-cell perturbations, random)
     bigger = [(2, 5), (5, 2), (3, 4), (4, 3), (2, 6), (6, 2), (3, 5), (5, 3), (4, 4), (5, 5), (2, 7), (7, 2), (1, 12), (12, 1), (6, 3)]
     for k, (h, w) in enumerate(bigger):
